@@ -1,10 +1,12 @@
 #!/usr/bin/env python3
-"""Translator: regenerates coq/Model/Generated.v from /repo/src/tokeniser.rs.
+"""Translator: regenerates coq/Model/Generated.v from /repo/src/tokeniser.rs and
+coq/Model/GeneratedCmp.v from /repo/src/solver.rs (the comparison table of solve_expression).
 
 Extracts (1) the binding powers of Token::binding_power and (2) the ordered keyword table
 of the match_ahead chain in `impl Tokeniser for String` (keyword string, token pushed,
-number of characters consumed by `it.nth(k)`).  Prints `translator: ok` and exits 0, or
-prints `translator: shape not recognised: <why>` and exits 3 without touching the file.
+number of characters consumed by `it.nth(k)`), and (3) the arms of the comparison table.
+Prints `translator: ok` and exits 0, or prints `translator: <table>: shape not recognised: <why>`
+and exits 3 without touching the file of the table it could not read (the other is still written).
 """
 import re, sys, os, json
 
@@ -22,11 +24,6 @@ def strip_comments(src):
             line = line[:m.start()]
         out.append(line)
     return "\n".join(out)
-
-
-def fail(why):
-    print("translator: shape not recognised: " + why)
-    sys.exit(3)
 
 
 TOKENS = {
@@ -105,6 +102,101 @@ def extract(src):
     return bp, kws
 
 
+# ---- comparison table of the solver ---------------------------------------------------------
+KINDS = {"Bool": "KBool", "Float": "KFloat", "Int": "KInt", "UInt": "KUInt"}
+OPS = {"Equal": "BEqual", "GreaterThan": "BGreaterThan", "GreaterThanOrEqual": "BGreaterThanOrEqual",
+       "LessThan": "BLessThan", "LessThanOrEqual": "BLessThanOrEqual"}
+RELS = {"==": "Equal", ">": "GreaterThan", ">=": "GreaterThanOrEqual", "<": "LessThan", "<=": "LessThanOrEqual"}
+
+
+def extract_cmp(src):
+    """the arms of `let res = match (x, *op, y) { .. }` in solve_expression, in source order"""
+    src = strip_comments(src)
+    m = re.search(r"let\s+res\s*=\s*match\s*\(\s*x\s*,\s*\*op\s*,\s*y\s*\)\s*\{(.*?)\n\s*\};", src, re.S)
+    if not m:
+        fail("comparison table `let res = match (x, *op, y)` not found")
+    if len(re.findall(r"match\s*\(\s*x\s*,\s*\*op\s*,\s*y\s*\)", src)) != 1:
+        fail("more than one comparison table")
+    body = m.group(1)
+    # what follows the table: true -> True, anything else -> False
+    tail = src[m.end():m.end() + 400]
+    if not re.match(r"\s*match\s+res\s*\{\s*true\s*=>\s*SolverResult::True\s*,\s*_\s*=>\s*SolverResult::False\s*,?\s*\}", tail):
+        fail("the result of the comparison table is not mapped true -> True, else False")
+    side = r"(?:Value::(\w+)\(\s*(\w+)\s*\)|(_))"
+    arm_re = re.compile(r"\s*\(\s*" + side + r"\s*,\s*BoolSym::(\w+)\s*,\s*" + side + r"\s*\)\s*(?:if\s+(.*?))?\s*=>\s*(\{.*?\}|[^,{}]+?)\s*,?\s*(?=\(|_\s*=>|$)", re.S)
+    pos = 0
+    arms = []
+    while True:
+        rest = body[pos:]
+        if re.match(r"\s*_\s*=>\s*unreachable!\(\)\s*,?\s*$", rest, re.S):
+            break
+        mm = arm_re.match(rest)
+        if not mm:
+            fail("comparison arm not of the expected shape near: " + " ".join(rest.split())[:80])
+        lk, lv, lany, op, rk, rv, rany, guard, rhs = mm.groups()
+        pos += mm.end()
+        if op not in OPS:
+            fail("comparison arm for operator " + op)
+        for k in (lk, rk):
+            if k is not None and k not in KINDS:
+                fail("comparison arm over Value::" + k)
+        kl = KINDS[lk] if lk else "KAny"
+        kr = KINDS[rk] if rk else "KAny"
+        lvar = lv if lk and lv != "_" else None
+        rvar = rv if rk and rv != "_" else None
+        g = "GNone"
+        gvar = None
+        if guard is not None:
+            gm = re.match(r"^(\w+)\s*<=\s*i64::MAX\s+as\s+u64$", " ".join(guard.split()))
+            if not gm:
+                fail("guard not of the form `v <= i64::MAX as u64`: " + guard)
+            gvar = gm.group(1)
+            if gvar == lvar and lk == "UInt":
+                g = "GLeft"
+            elif gvar == rvar and rk == "UInt":
+                g = "GRight"
+            else:
+                fail("guard on a variable that is not the UInt side: " + guard)
+        rhs = " ".join(rhs.strip().strip("{}").split())
+        if rhs in ("true", "false"):
+            b = "BTrue" if rhs == "true" else "BFalse"
+        else:
+            bm = re.match(r"^\(?\s*(\w+)(\s+as\s+i64)?\s*\)?\s*(==|>=|<=|>|<)\s*\(?\s*(\w+)(\s+as\s+i64)?\s*\)?$", rhs)
+            if not bm:
+                fail("body of a comparison arm: " + rhs)
+            a, acast, rel, c, ccast = bm.groups()
+            if a != lvar or c != rvar or lvar is None or rvar is None:
+                fail("a comparison arm does not compare its left variable with its right variable: " + rhs)
+            if RELS[rel] != op:
+                pass    # recorded as written: the equivalence lemma decides whether it is right
+            mixed = {lk, rk} == {"UInt", "Int"}
+            if mixed:
+                uvar, ucast, icast = (a, acast, ccast) if lk == "UInt" else (c, ccast, acast)
+                if not ucast or icast or gvar != uvar:
+                    fail("mixed Int/UInt arm without `as i64` on the guarded UInt side: " + rhs)
+            else:
+                if acast or ccast:
+                    fail("cast in a same-kind arm: " + rhs)
+                if lk != rk:
+                    fail("comparison of different kinds: %s vs %s" % (lk, rk))
+                if lk == "Bool" and rel != "==":
+                    fail("ordering comparison on Bool")
+            b = "BRel " + OPS[RELS[rel]]
+        arms.append((kl, OPS[op], kr, g, b))
+    if not arms:
+        fail("empty comparison table")
+    return arms
+
+
+def render_cmp(arms):
+    lines = ["(* AUTO-GENERATED by tools/gen_tables.py from src/solver.rs (the match `let res = match (x, *op, y)`"
+             "\n   of solve_expression, arms in source order; the final `_ => unreachable!()` is the empty rest) -- do not edit. *)",
+             "From TauModel Require Import Base Syntax CmpTable.", "",
+             "Definition cmp_arms : list cmp_arm :=",
+             "  [" + ";\n   ".join("(%s, %s, %s, %s, %s)" % a for a in arms) + "].", ""]
+    return "\n".join(lines)
+
+
 def coq_str(s):
     return "[" + "; ".join(str(ord(ch)) for ch in s) + "]%N"
 
@@ -125,23 +217,58 @@ def render(bp, kws):
     return "\n".join(lines)
 
 
-def main():
-    path = os.path.join(REPO, "src", "tokeniser.rs")
-    try:
-        src = open(path, encoding="utf-8").read()
-    except OSError as e:
-        fail("cannot read %s: %s" % (path, e))
-    bp, kws = extract(src)
-    text = render(bp, kws)
-    out = os.path.normpath(OUT)
-    old = None
-    if os.path.exists(out):
-        old = open(out, encoding="utf-8").read()
+class Unrecognised(Exception):
+    pass
+
+
+def fail(why):
+    raise Unrecognised(why)
+
+
+def write_if_changed(path, text):
+    old = open(path, encoding="utf-8").read() if os.path.exists(path) else None
     if old != text:
-        with open(out, "w", encoding="utf-8") as f:
+        with open(path, "w", encoding="utf-8") as f:
             f.write(text)
+    return old != text
+
+
+def main():
+    out = os.path.normpath(OUT)
+    status = {}
+    info = {}
+    # table 1: binding powers and keyword table of the tokeniser
+    try:
+        try:
+            src = open(os.path.join(REPO, "src", "tokeniser.rs"), encoding="utf-8").read()
+        except OSError as e:
+            fail("cannot read tokeniser.rs: %s" % e)
+        bp, kws = extract(src)
+        info["changed"] = write_if_changed(out, render(bp, kws))
+        info["bp"] = bp
+        info["keywords"] = [[s, t, n] for (s, t, n) in kws]
+        status["tokeniser"] = "ok"
+    except Unrecognised as e:
+        status["tokeniser"] = "shape not recognised: %s" % e
+    # table 2: the solver's comparison arms
+    try:
+        try:
+            ssrc = open(os.path.join(REPO, "src", "solver.rs"), encoding="utf-8").read()
+        except OSError as e:
+            fail("cannot read solver.rs: %s" % e)
+        arms = extract_cmp(ssrc)
+        info["cmp_changed"] = write_if_changed(os.path.join(os.path.dirname(out), "GeneratedCmp.v"), render_cmp(arms))
+        info["cmp_arms"] = len(arms)
+        status["solver_cmp"] = "ok"
+    except Unrecognised as e:
+        status["solver_cmp"] = "shape not recognised: %s" % e
+    info["status"] = status
     if "--json" in sys.argv:
-        print(json.dumps({"bp": bp, "keywords": [[s, t, n] for (s, t, n) in kws], "changed": old != text}))
+        print(json.dumps(info))
+    bad = [k + ": " + v for k, v in status.items() if v != "ok"]
+    if bad:
+        print("translator: " + "; ".join(bad))
+        sys.exit(3)
     print("translator: ok")
 
 
